@@ -17,7 +17,7 @@ import itertools
 
 from .progdb import AnalysisError, ClassInfo, FunctionInfo, ModuleInfo
 from .terms import (
-    App, Const, EnumM, Num, Star, Sym, Top, Tup, Vec, V, FALSE, TRUE,
+    App, Const, EnumM, Num, Star, Sym, Top, Tup, Vec, V, FALSE, TRUE, cmp0,
     add, compare, conj, const_of, disj, div, is_boolish, is_const, ite, mk_num, mul, neg, negate,
     powv, sub, to_poly, has_top,
 )
@@ -381,6 +381,8 @@ class Evaluator:
             p = to_poly(v)
             if p is not None and p.is_const():
                 return Const(p.const_value() != 0)
+            if p is not None and (isinstance(v, Num) or (isinstance(v, App) and v.fn in ("len", "size", "count_lt", "count_le", "sum", "floor", "ceil", "trunc"))):
+                return cmp0("ne", p)   # truthiness of a number is `!= 0` (so `not len(x)` is `len(x) == 0`)
             return App("truthy", (v,))
         return TRUE
 
@@ -989,7 +991,7 @@ class Evaluator:
     def pure_expr(self, e):
         for n in ast.walk(e):
             if isinstance(n, (ast.Lambda, ast.ListComp, ast.GeneratorExp, ast.DictComp, ast.SetComp, ast.Yield, ast.Await, ast.NamedExpr)):
-                return False
+                return False  # (a walrus binds a name: not a pure expression for merging purposes)
             if isinstance(n, ast.Call):
                 f = n.func
                 src = ast.unparse(f)
@@ -1435,6 +1437,11 @@ class Evaluator:
             else:
                 return Top("f-string")
         return Const("".join(parts))
+
+    def ex_NamedExpr(self, e, fr):
+        v = self.eval(e.value, fr)
+        self.assign(e.target, v, fr)
+        return v
 
     def ex_Lambda(self, e, fr):
         return LambdaV(e, fr, fr.module)
